@@ -55,6 +55,10 @@ def panic_kind(x):
         return "timearith:" + (x.get("self_ty") or "")
     if c.endswith(("clone_from_slice", "copy_from_slice", "split_at", "copy_within", "split_at_mut")):
         return "slicelen:" + c.split("::")[-1]
+    if c in ("core::ops::index::Index::index", "core::ops::index::IndexMut::index_mut") and len(x.get("args", [])) == 2:
+        t = x["args"][1].get("ty") or ""
+        if "ops::range::Range" in t and "RangeFull" not in t:
+            return "rangeindex"
     return None
 
 
@@ -102,7 +106,7 @@ def anchors(facts, fns):
     return {f["id"]: "|".join(sorted(up(f["id"]))) for f in fns}
 
 
-@rule("T3", ["C06"], floor=5, doc="every panicking construct (panic!/assert!/unreachable!, unwrap/expect, time arithmetic, length-checked slice "
+@rule("T3", ["C06", "C14"], floor=5, doc="every panicking construct (panic!/assert!/unreachable!, unwrap/expect, time arithmetic, length-checked slice "
       "copies) on a deserialization path is triaged in spec/panic_sites.json as data-independent; an untriaged site is reported")
 def t3(facts, tier):
     triage = {t["key"]: t["reason"] for t in json.load(open(os.path.join(SPEC, "panic_sites.json")))}
@@ -130,10 +134,11 @@ def t3(facts, tier):
                 seen[key] = (seen[key][0], seen[key][1], seen[key][2] + 1)
     for key, (f, x, n) in sorted(seen.items()):
         reason = triage.get(key)
+        pr = ["C06", "C14"] if ("crypto" in key or "Crypto" in key or "encrypted" in key) else ["C06"]
         if reason:
-            yield ob(["C06"], "T3", key, "pass", where(f, x), f"triaged ({n} site(s)): {reason}")
+            yield ob(pr, "T3", key, "pass", where(f, x), f"triaged ({n} site(s)): {reason}")
         else:
-            yield ob(["C06"], "T3", key, "violation", where(f, x),
+            yield ob(pr, "T3", key, "violation", where(f, x),
                      f"untriaged panicking construct on a deserialization path that is fed by or control-dependent on data read "
                      f"from the stream: {key} — malformed input must yield Err, not a panic")
     yield ob(["C06"], "T3", "data-independent-sites", "pass", "", f"{len(independent)} panicking construct(s) on deserialization paths are "
@@ -509,7 +514,8 @@ def tainted_vars(f):
             if x.get("k") == "Call":
                 c = callee(x) or ""
                 if c.startswith("savefile::Deserializer::read_") or x.get("trait") in ("byteorder::io::ReadBytesExt", "std::io::Read") \
-                        or c == "savefile::Deserialize::deserialize" or c.startswith("byteorder::ByteOrder::read_"):
+                        or c == "savefile::Deserialize::deserialize" or c.startswith("byteorder::ByteOrder::read_") \
+                        or c.endswith(("fs::read", "fs::read_to_string")):
                     return True
             if x.get("k") == "Var" and x["v"] in tv:
                 return True
